@@ -2,47 +2,159 @@ import sys; sys.path.insert(0, '/verif/tools')
 from ann import Overlay, ghost
 o = Overlay('/verif/contracts/lcs.rs')
 o.strip_ghost()
-def contract(lv):
+def contract(lv, opt):
     return '''
     requires diff_pre(*vstd::prelude::old(d), old, old_range, new, new_range, LVL),
         (old_range.end - old_range.start) <= u32::MAX || (new_range.end - new_range.start) <= u32::MAX,   // table cells are u32
     ensures
         err_post(*vstd::prelude::old(d), *final(d), res),
         (*final(d)).fobs() == (*vstd::prelude::old(d)).fobs(),
-        seg_post(*vstd::prelude::old(d), *final(d), old, old_range, new, new_range, LVL, false, fin::<D>(), res.is_ok()),
-'''.replace('LVL', lv)
+        seg_post(*vstd::prelude::old(d), *final(d), old, old_range, new, new_range, LVL, OPT, fin::<D>(), res.is_ok()),
+'''.replace('LVL', lv).replace('OPT', opt)
+GEN = '''<Old: Index<usize> + ?Sized, New: Index<usize> + ?Sized>'''
+WH = '''where New::Output: PartialEq<Old::Output>'''
+TBL = '''t: Map<(usize, usize), u32>, old: &Old, os: int, oe: int, new: &New, ns: int, ne: int'''
 mt = o.find('fn make_table<Old, New>(')
 o.lines[mt:mt] = ghost('''
 /// every stored value is bounded by the remaining lengths (so `+ 1` cannot overflow)
 spec fn tbl_bounded(t: Map<(usize, usize), u32>, new_len: int, old_len: int) -> bool {
     forall|k: (usize, usize)| #[trigger] t.contains_key(k) ==> k.0 < new_len && k.1 < old_len && t[k] <= new_len - k.0 && t[k] <= old_len - k.1
 }
-''')
+// ---- C03: the table is the LCS table of the two ranges.  Cell (i, j) - NEW index first - belongs to old[os + j .. oe) and new[ns + i .. ne)
+/// value of cell (i, j); the code stores only positive values, absent cells are 0
+spec fn tbl_val(t: Map<(usize, usize), u32>, i: int, j: int) -> int {
+    if t.contains_key((i as usize, j as usize)) { t[(i as usize, j as usize)] as int } else { 0 }
+}
+spec fn cell_ok GEN(TBL, i: int, j: int) -> bool WH
+{ tbl_val(t, i, j) == lcs_len(old, os + j, oe, new, ns + i, ne) }
+/// cell (i2, j2) is filled no later than cell (i, j): rows from the last one up, each row from its last column down
+spec fn cell_done(i2: int, j2: int, i: int, j: int) -> bool { i2 > i || (i2 == i && j2 >= j) }
+/// all cells filled no later than (i, j) - including the zero border row/column - are final, nothing else is stored
+spec fn tbl_upto GEN(TBL, i: int, j: int) -> bool WH
+{
+    (forall|i2: int, j2: int| 0 <= i2 <= ne - ns && 0 <= j2 <= oe - os && cell_done(i2, j2, i, j) ==> #[trigger] cell_ok(t, old, os, oe, new, ns, ne, i2, j2))
+    && (forall|k: (usize, usize)| #[trigger] t.contains_key(k) ==> k.0 < ne - ns && k.1 < oe - os && cell_done(k.0 as int, k.1 as int, i, j))
+}
+/// make_table's result: for all 0 <= i <= new_len, 0 <= j <= old_len the cell (i, j) is lcs_len(old[os + j ..), new[ns + i ..))
+spec fn tbl_lcs GEN(TBL) -> bool WH
+{
+    forall|i: int, j: int| 0 <= i <= ne - ns && 0 <= j <= oe - os ==> #[trigger] cell_ok(t, old, os, oe, new, ns, ne, i, j)
+}
+proof fn lemma_tbl_init GEN(old: &Old, os: int, oe: int, new: &New, ns: int, ne: int) WH
+  requires os <= oe, ns <= ne
+  ensures tbl_upto(Map::<(usize, usize), u32>::empty(), old, os, oe, new, ns, ne, ne - ns, 0)
+{
+    let t = Map::<(usize, usize), u32>::empty();
+    assert forall|i2: int, j2: int| 0 <= i2 <= ne - ns && 0 <= j2 <= oe - os && cell_done(i2, j2, ne - ns, 0) implies #[trigger] cell_ok(t, old, os, oe, new, ns, ne, i2, j2) by {
+        lemma_lcs_empty(old, os + j2, oe, new, ns + i2, ne);
+    }
+}
+/// starting row i: the border cell (i, old_len) is 0
+proof fn lemma_tbl_row GEN(TBL, i: int) WH
+  requires os <= oe, 0 <= i < ne - ns, tbl_upto(t, old, os, oe, new, ns, ne, i + 1, 0)
+  ensures tbl_upto(t, old, os, oe, new, ns, ne, i, oe - os)
+{
+    assert forall|i2: int, j2: int| 0 <= i2 <= ne - ns && 0 <= j2 <= oe - os && cell_done(i2, j2, i, oe - os) implies #[trigger] cell_ok(t, old, os, oe, new, ns, ne, i2, j2) by {
+        if i2 > i {
+            assert(cell_done(i2, j2, i + 1, 0));
+        } else {
+            lemma_lcs_empty(old, os + j2, oe, new, ns + i2, ne);
+            if t.contains_key((i2 as usize, j2 as usize)) { assert(((i2 as usize, j2 as usize)).1 < oe - os); }
+        }
+    }
+    assert forall|k: (usize, usize)| #[trigger] t.contains_key(k) implies k.0 < ne - ns && k.1 < oe - os && cell_done(k.0 as int, k.1 as int, i, oe - os) by {
+        assert(cell_done(k.0 as int, k.1 as int, i + 1, 0));
+    }
+}
+/// the recurrence of lcs_len read off the table: what the loop body computes for cell (i, j)
+proof fn lemma_tbl_cell GEN(TBL, i: int, j: int) WH
+  requires 0 <= i < ne - ns, 0 <= j < oe - os, tbl_upto(t, old, os, oe, new, ns, ne, i, j + 1)
+  ensures lcs_len(old, os + j, oe, new, ns + i, ne) == (if eqv(old, os + j, new, ns + i) { tbl_val(t, i + 1, j + 1) + 1 } else { imax(tbl_val(t, i + 1, j), tbl_val(t, i, j + 1)) })
+{
+    assert(cell_done(i + 1, j + 1, i, j + 1) && cell_done(i + 1, j, i, j + 1) && cell_done(i, j + 1, i, j + 1));
+    assert(cell_ok(t, old, os, oe, new, ns, ne, i + 1, j + 1));
+    assert(cell_ok(t, old, os, oe, new, ns, ne, i + 1, j));
+    assert(cell_ok(t, old, os, oe, new, ns, ne, i, j + 1));
+    assert(os + (j + 1) == os + j + 1 && ns + (i + 1) == ns + i + 1);
+}
+/// storing the value of cell (i, j) (or leaving it absent when it is 0)
+proof fn lemma_tbl_store GEN(tp: Map<(usize, usize), u32>, TBL, i: int, j: int, val: u32) WH
+  requires 0 <= i < ne - ns, 0 <= j < oe - os, ne - ns <= usize::MAX, oe - os <= usize::MAX,
+      tbl_upto(tp, old, os, oe, new, ns, ne, i, j + 1),
+      val == lcs_len(old, os + j, oe, new, ns + i, ne),
+      t == (if val > 0 { tp.insert((i as usize, j as usize), val) } else { tp }),
+  ensures tbl_upto(t, old, os, oe, new, ns, ne, i, j)
+{
+    if tp.contains_key((i as usize, j as usize)) { assert(cell_done(((i as usize, j as usize)).0 as int, ((i as usize, j as usize)).1 as int, i, j + 1)); }
+    assert forall|i2: int, j2: int| 0 <= i2 <= ne - ns && 0 <= j2 <= oe - os && cell_done(i2, j2, i, j) implies #[trigger] cell_ok(t, old, os, oe, new, ns, ne, i2, j2) by {
+        if i2 == i && j2 == j {
+        } else {
+            assert(cell_done(i2, j2, i, j + 1));
+            assert(cell_ok(tp, old, os, oe, new, ns, ne, i2, j2));
+            assert((i2 as usize, j2 as usize) != (i as usize, j as usize));
+        }
+    }
+    assert forall|k: (usize, usize)| #[trigger] t.contains_key(k) implies k.0 < ne - ns && k.1 < oe - os && cell_done(k.0 as int, k.1 as int, i, j) by {
+        if k != (i as usize, j as usize) { assert(tp.contains_key(k)); assert(cell_done(k.0 as int, k.1 as int, i, j + 1)); }
+    }
+}
+'''.replace('GEN', GEN).replace('WH', WH).replace('TBL', TBL))
 mt = o.find('fn make_table<Old, New>(')
 o.before('{', '''
     requires box_pre(old, old_range, new, new_range),
         (old_range.end - old_range.start) <= u32::MAX || (new_range.end - new_range.start) <= u32::MAX,
+    ensures
+        deadline is None ==> res is Some,
+        res matches Some(t) ==> tbl_lcs(t@, old, old_range.start as int, old_range.end as int, new, new_range.start as int, new_range.end as int),
 ''', start=mt)
 o.after('{', '''
 broadcast use {axiom_pure_index, axiom_pure_eq};
 ''', start=mt, stmt=False, ind='    ')
+ARGS = 'old, old_range.start as int, old_range.end as int, new, new_range.start as int, new_range.end as int'
+# NOTE: `VERUS_ghost_iter` is the name the verus! macro gives the ghost iterator of a `for` loop whose head does not name one
+# (`for x in it: e`); the head is a code line of /repo, so the default name is used.  `.index@` = number of completed iterations;
+# inside the body Verus knows i == new_len - 1 - index (resp. j == old_len - 1 - index), at exit index == len.
+o.before('for i in (0..new_len).rev()', '''
+proof { lemma_tbl_init(ARGS); }
+'''.replace('ARGS', ARGS), start=mt)
 o.after('for i in (0..new_len).rev()', '''
     invariant
         old_len == old_range.end - old_range.start, new_len == new_range.end - new_range.start,
         box_pre(old, old_range, new, new_range),
         old_len <= u32::MAX || new_len <= u32::MAX,
         tbl_bounded(table@, new_len as int, old_len as int),
-''', start=mt, stmt=False)
+        0 <= VERUS_ghost_iter.index@ <= new_len,
+        tbl_upto(table@, ARGS, new_len - VERUS_ghost_iter.index@, 0),
+'''.replace('ARGS', ARGS), start=mt, stmt=False)
+o.before('for j in (0..old_len).rev()', '''
+proof { lemma_tbl_row(table@, ARGS, i as int); }
+'''.replace('ARGS', ARGS), start=mt)
 o.after('for j in (0..old_len).rev()', '''
     invariant
         old_len == old_range.end - old_range.start, new_len == new_range.end - new_range.start,
         box_pre(old, old_range, new, new_range), i < new_len,
         old_len <= u32::MAX || new_len <= u32::MAX,
         tbl_bounded(table@, new_len as int, old_len as int),
-''', start=mt, stmt=False)
+        0 <= VERUS_ghost_iter.index@ <= old_len,
+        tbl_upto(table@, ARGS, i as int, old_len - VERUS_ghost_iter.index@),
+'''.replace('ARGS', ARGS), start=mt, stmt=False)
+o.before('if val > 0 {', '''
+let ghost tp = table@;
+proof {
+    lemma_tbl_cell(tp, ARGS, i as int, j as int);
+    assert(val == lcs_len(old, old_range.start + j, old_range.end as int, new, new_range.start + i, new_range.end as int));
+}
+'''.replace('ARGS', ARGS), start=mt)
+k = o.find('table.insert((i, j), val);', mt)
+o.lines[k+2:k+2] = ghost('''
+proof { lemma_tbl_store(tp, table@, ARGS, i as int, j as int, val); }
+'''.replace('ARGS', ARGS), o.indent_of(k + 1))
+o.before('Some(table)', '''
+proof { assert(tbl_lcs(table@, ARGS)); }
+'''.replace('ARGS', ARGS), start=mt)
 
 dd = o.find('pub fn diff_deadline<Old, New, D>(')
-o.before('{', contract('alg_lvl(deadline)'), start=dd)
+o.before('{', contract('alg_lvl(deadline)', 'deadline is None'), start=dd)
 o.after('{', '''
 broadcast use {axiom_pure_index, axiom_pure_eq};
 let ghost rel = rel_of(old, new); let ghost lvl = alg_lvl(deadline);
@@ -111,5 +223,5 @@ p = call(o, p, 'd.insert(', 'Ev::Insert((old_range.start + common_prefix_len + o
 p = call(o, p, 'd.equal(', 'Ev::Equal((old_range.start + old_len + common_prefix_len) as usize, (new_range.start + new_len + common_prefix_len) as usize, common_suffix_len)', 'oc = oc + common_suffix_len; nc = nc + common_suffix_len;')
 p = finish(o, p, pat='d.finish()')
 df = o.find('pub fn diff<Old, New, D>(')
-o.before('{', contract('alg_lvl(None)'), start=df)
+o.before('{', contract('alg_lvl(None)', 'true'), start=df)
 o.save()
